@@ -32,7 +32,9 @@ type c03Case struct {
 	Role   int `json:"role,omitempty"` // ids: 0 self-signed with its own key, 1 issued by a CA with its own key, 2 issued by a CA for a request-only artifact
 }
 
-var c03Keys = []string{"C", "O", "OU", "CN", "SERIALNUMBER", "L", "ST", "STREET", "POSTALCODE", "1.2.3.4", "2.5.4.97"}
+var c03Keys = []string{"C", "O", "OU", "CN", "SERIALNUMBER", "L", "ST", "STREET", "POSTALCODE", "1.2.3.4", "2.5.4.97",
+	// well-known attribute types that have no short name here and come in by their OID (emailAddress, domainComponent)
+	"1.2.840.113549.1.9.1", "0.9.2342.19200300.100.1.25"}
 var c03Values = []string{"DE", "Acme Ltd.", "a b  c", "O'Neil (x) +/:?", "Zoë Ünïcode", strings.Repeat("v", 64), strings.Repeat("long value ", 18) + "xy",
 	`"quoted"`, `'single' and <angle> [brackets]`,
 	// two-letter values in lower and mixed case (a country code is carried as written), and a value that is all upper case
@@ -449,7 +451,7 @@ func init() {
 	register(&engine.Check{
 		ID:          "C03",
 		Level:       "exploration",
-		Rule:        "subject strings over 11 keys (9 short names, 2 dotted OIDs) x 12 values (ASCII, inner double space, punctuation, non-ASCII, 64 and 200 characters, a value in double quotes, single quotes and brackets, two-letter values in lower and mixed case, an all-upper-case value): every sequence of length 1..3 (4.6e5, with 4 separator spellings; lengths 1 and 2 also with the whole string standing in white space: trailing blank, line break or tab, leading line break, blanks on both sides) through config.ParseRDNSequence vs. the documented grammar; every sequence of length 1..2 and every cyclic window of length 3..8 with rotating values through whole certificate generation without profile, with a profile listing the subject's attributes, and the same with allowOther (quick thins the profile variants of length-2 subjects to a third); 8 serials x 6 x 6 unique-id settings x {no profile, extension-only profile, subject-constraining profile} x {self-signed, issued with own key, issued for a request-only artifact}; 8 two-run forests for serial freshness, and 4 times three back-to-back processes of the built binary (serials distinct across processes started within one second); configuration files with a comment block of 1 KiB .. 1 MiB in front of each top-level key or at the end, and a subject value of that length (configured serial and unique ids must arrive). Oracle: one single-valued RDN per pair in reversed order, documented OID, text unchanged, UTF8String or (in repertoire) PrintableString, identical with and without profile; configured serial/unique ids bit for bit. non-trivial = distinct case that reached the comparison",
+		Rule:        "subject strings over 13 keys (9 short names, 4 dotted OIDs incl. emailAddress and domainComponent) x 12 values (ASCII, inner double space, punctuation, non-ASCII, 64 and 200 characters, a value in double quotes, single quotes and brackets, two-letter values in lower and mixed case, an all-upper-case value): every sequence of length 1..3 (4.6e5, with 4 separator spellings; lengths 1 and 2 also with the whole string standing in white space: trailing blank, line break or tab, leading line break, blanks on both sides) through config.ParseRDNSequence vs. the documented grammar; every sequence of length 1..2 and every cyclic window of length 3..8 with rotating values through whole certificate generation without profile, with a profile listing the subject's attributes, and the same with allowOther (quick thins the profile variants of length-2 subjects to a third); 8 serials x 6 x 6 unique-id settings x {no profile, extension-only profile, subject-constraining profile} x {self-signed, issued with own key, issued for a request-only artifact}; 8 two-run forests for serial freshness, and 4 times three back-to-back processes of the built binary (serials distinct across processes started within one second); configuration files with a comment block of 1 KiB .. 1 MiB in front of each top-level key or at the end, and a subject value of that length (configured serial and unique ids must arrive). Oracle: one single-valued RDN per pair in reversed order, documented OID, text unchanged, UTF8String or (in repertoire) PrintableString, identical with and without profile; configured serial/unique ids bit for bit. non-trivial = distinct case that reached the comparison",
 		Bound:       map[string]string{"subject length": "parser 1..3 exhaustive (thorough 1..4: 3.5e7), generation 1..2 exhaustive (thorough: length 3 over 11 keys x 2 values), 3..8 windows", "values": "7"},
 		Assumptions: []string{"values containing , = \\ or a leading # are outside the documented grammar that reaches the parser", "fresh-serial collisions have probability about 2^-150"},
 		Budget:      budgets(quickBudget, thoroughBudget),
